@@ -24,6 +24,29 @@ Inductive answer := AOk | AErr (e : errclass).
    AFTER the member id has been taken from the response. *)
 Inductive leadership := NotLeader | LeaderOk | LeaderFail (e : errclass).
 Inductive join_answer := JOk (m : nat) (ld : leadership) | JErr (e : errclass).
+(* assignTopicPartitions (run by the leader inside the JoinGroup step): one readPartitions for all
+   topics; if that answers UnknownTopicOrPartition and there are at least two topics, one
+   readPartitions per topic, in order, skipping the topics that answer UnknownTopicOrPartition and
+   returning any other error at once.  [leader_assign] gives the leadership outcome of the step
+   and the number of metadata reads made. *)
+Inductive meta_answer := MOk | MUnknown | MErr (e : errclass).
+Fixpoint leader_per_topic (l : list meta_answer) : nat * option errclass :=
+  match l with
+  | [] => (O, None)
+  | MErr e :: _ => (1, Some e)
+  | _ :: t => let '(n, r) := leader_per_topic t in (S n, r)
+  end.
+Definition leader_assign (ntopics : nat) (first : meta_answer) (per : list meta_answer) : leadership * nat :=
+  match first with
+  | MOk => (LeaderOk, 1)
+  | MErr e => (LeaderFail e, 1)
+  | MUnknown =>
+    if Nat.leb 2 ntopics
+    then let '(n, r) := leader_per_topic (firstn ntopics per) in
+         (match r with None => LeaderOk | Some e => LeaderFail e end, S n)
+    else (LeaderOk, 1)       (* a single unknown topic: no assignment for it, not a failure *)
+  end.
+
 (* partitionWatcher tick: readPartitions result classes *)
 Inductive wres := WSame | WChanged | WKafkaErr | WDropped.
 
